@@ -222,7 +222,8 @@ def run(ctx):
             if seq.count('b') < 2:
                 continue
             jobs.append((h, list(seq), seed))
-    ctx.pmap(_job, list(X.chunks(jobs, 120)), chunksize=1)
+    from .. import docspace as D
+    ctx.pmap(_job, [[j] for j in D.long_kern_docs(seed, reps=(3, 6))] + list(X.chunks(jobs, 120)), chunksize=1)
     ctx.extra['cases_per_class'] = {k[6:]: v for k, v in ctx.n.items() if k.startswith('class:')}
 
 
